@@ -1,8 +1,7 @@
 """C11 table generator: literal target / query-target universes with static metadata and a prefix table.
 
 For each configuration module: T (directive targets), TLEN, Q (query targets), PFX[t][q] = Q[q] starts with T[t]
-(computed HERE, in Python — the oracle's notion of "is a prefix" never touches the Rust code under test), and one
-static Metadata per query target x level x kind. The harnesses (src/c11.rs) pick literals by symbolic index.
+(computed HERE, in Python — the oracle's notion of "is a prefix" never touches the Rust code under test), The harnesses (src/c11.rs) pick literals by symbolic index.
 """
 import itertools
 
@@ -42,25 +41,129 @@ def emit_config(name, cfg):
     for t in T:
         o.append("        [%s]," % ", ".join("true" if q.startswith(t) else "false" for q in Q))
     o.append("    ];")
-    for kind, arr in (("EVENT", "QE"), ("SPAN", "QS")):
-        o.append("    pub static %s: [[Metadata<'static>; 5]; NQ] = [" % arr)
-        for q in Q:
-            o.append("        [%s]," % ", ".join(
-                'meta!("m", %s, Level::%s, Kind::%s)' % (rs_str(q), l, kind) for l in ("ERROR", "WARN", "INFO", "DEBUG", "TRACE")))
-        o.append("    ];")
     o.append("}")
     return "\n".join(o)
 
 
-HEAD = """//! GENERATED by gen_c11.py — do not edit. C11 literal universes, prefix tables and static metadata.
-use crate::common::CS;
-use tracing_core::{metadata::Kind, Level, Metadata};
+def keyname(t):
+    if t is None:
+        return "D"
+    return "e" if t == "" else t.replace(":", "c")
 
-macro_rules! meta {
-    ($name:expr, $target:expr, $lvl:expr, $kind:expr) => {
-        tracing_core::metadata! { name: $name, target: $target, level: $lvl, fields: &[], callsite: &CS, kind: $kind }
-    };
-}
+
+def tuples(cfg, k):
+    keys = list(range(len(cfg["T"]))) + [None]
+    return list(itertools.product(keys, repeat=k))
+
+
+def hname(cname, cfg, tup, kind="we"):
+    return "c11_%s_%s_%s" % (kind, cname, "_".join(keyname(None if i is None else cfg["T"][i]) for i in tup))
+
+
+def harness(cname, cfg, tup, kind):
+    T, Q = cfg["T"], cfg["Q"]
+    k = len(tup)
+    unwind = max(max(len(x) for x in T + Q), k) + 2
+    build = "Targets::new()"
+    dirs = []
+    for j, i in enumerate(tup):
+        if i is None:
+            build += ".with_default(filter(l%d))" % j
+            dirs.append("Dir { ts: NT, l: l%d }" % j)
+        else:
+            build += ".with_target(%s, filter(l%d))" % (rs_str(T[i]), j)
+            dirs.append("Dir { ts: %d, l: l%d }" % (i, j))
+    o = ["/// `%s`" % build.replace("filter(", "(").replace("`", "'"),
+         "#[kani::proof]", "#[kani::unwind(%d)]" % unwind,
+         "#[kani::stub(std::rt::thread_cleanup, noop)]", "#[kani::stub(core::fmt::write, fmt_write_stub)]",
+         "fn %s() {" % hname(cname, cfg, tup, kind), "    use %s::*;" % cname, "    vtable_hint();"]
+    for j in range(k):
+        o.append("    let l%d = any_filter_rank();" % j)
+    o.append("    let t = %s;" % build)
+    o.append("    let d = [%s];" % ", ".join(dirs))
+    o.append("    let q: usize = kani::any();")
+    o.append("    kani::assume(q < NQ);")
+    o.append("    let col = [%s];" % ", ".join("PFX[%d][q]" % i for i in range(len(T))))
+    o.append("    let (some, want, spec, lr) = check_%s(t, &d, NT, &TLEN, &col, Q[q]);" % kind)
+    # witnesses (only those this tuple can produce)
+    has_def = None in tup
+    tg = [T[i] for i in tup if i is not None]
+    o.append("    kani::cover!(want);")
+    o.append("    kani::cover!(some && !want);")
+    if not has_def and any(not any(q.startswith(t) for t in tg) for q in Q):
+        o.append("    kani::cover!(!some);")
+    if has_def and any(not any(q.startswith(t) for t in tg) for q in Q):
+        o.append("    kani::cover!(some && spec == -1 && want);")
+    # two different matching directives that disagree: the more specific one (wherever it was added) decides
+    for a in range(k):
+        for b in range(a + 1, k):
+            ka, kb = tup[a], tup[b]
+            if ka == kb:
+                o.append("    kani::cover!(lr <= l%d && lr > l%d%s);  // duplicate key: the later one decides" % (
+                    a, b, "".join(" && l%d == l%d" % (c, b) for c in range(b + 1, k) if tup[c] == kb)))
+                continue
+            sa = "" if ka is None else T[ka]
+            sb = "" if kb is None else T[kb]
+            la = -1 if ka is None else len(sa)
+            lb = -1 if kb is None else len(sb)
+            if la != lb and any(q.startswith(sa) and q.startswith(sb) for q in Q):
+                ma = "true" if ka is None else "col[%d]" % ka
+                mb = "true" if kb is None else "col[%d]" % kb
+                o.append("    kani::cover!(%s && %s && (lr <= l%d) != (lr <= l%d) && spec == %d);" % (ma, mb, a, b, max(la, lb)))
+    o.append("}")
+    return "\n".join(o)
+
+
+def plan():
+    """-> [(kind, config, tuple-of-keys (strings, None = default), tier)]; kind 'we' = would_enable/default_level,
+    'mi' / 'me' = interest+hint / enabled on constructed metadata. quick is a subset of thorough."""
+    out, seen = [], set()
+
+    def add(kind, cname, keys, k, tier):
+        T = CONFIGS[cname]["T"]
+        for tup in itertools.product(keys, repeat=k):
+            it = tuple(None if x is None else T.index(x) for x in tup)
+            if (kind, cname, it) not in seen:
+                seen.add((kind, cname, it))
+                out.append((kind, cname, it, tier))
+
+    D = None
+    # quick: every single directive (all three checks); ordered pairs over {"", a, default} plus (a,b), (b,a)
+    # (':' behaves like 'b' at one byte) for would_enable
+    add("we", "t1", ["", "a", "b", ":", D], 1, "quick")
+    add("mi", "t1", ["", "a", "b", ":", D], 1, "quick")
+    add("me", "t1", ["", "a", "b", ":", D], 1, "quick")
+    add("we", "t1", ["", "a", D], 2, "quick")
+    add("we", "t1", ["a", "b"], 2, "quick")
+    # thorough
+    add("we", "t1", ["", "a", "b", ":", D], 2, "thorough")
+    add("mi", "t1", ["a", D], 2, "thorough")
+    add("me", "t1", ["", "a"], 2, "thorough")
+    add("we", "t1", ["a", D], 3, "thorough")
+    add("we", "t2", ["", "a", "aa", "ab", D], 2, "thorough")
+    add("we", "tp", ["a", "a::", "a::b", D], 2, "thorough")
+    return out
+
+
+def harnesses(tier):
+    """-> [(name, tier, text, kind, config, tuple)] in a stable order"""
+    out = []
+    for kind, cname, tup, t in plan():
+        if tier == "quick" and t != "quick":
+            continue
+        cfg = CONFIGS[cname]
+        txt = " + ".join("default" if i is None else "'%s'" % cfg["T"][i] for i in tup)
+        what = {"we": "would_enable / default_level", "mi": "Subscribe::register_callsite / Filter::callsite_enabled / max_level_hint on constructed metadata",
+                "me": "Subscribe::enabled / Filter::enabled on constructed metadata through the Layered stack"}[kind]
+        out.append((hname(cname, cfg, tup, kind), t, "%s; %d directive(s) added in this order: %s" % (what, len(tup), txt),
+                    kind, cname, tup))
+    return out
+
+
+HEAD = """//! GENERATED by gen_c11.py — do not edit. C11 literal universes, prefix tables and static metadata.
+use crate::c11::*;
+use crate::common::*;
+use tracing_subscriber::filter::Targets;
 
 """
 
@@ -70,8 +173,11 @@ def generate(path, tier):
         f.write(HEAD)
         for name, cfg in CONFIGS.items():
             f.write(emit_config(name, cfg) + "\n\n")
+        for nm, t, txt, kind, cname, tup in harnesses(tier):
+            f.write(harness(cname, CONFIGS[cname], tup, kind) + "\n\n")
 
 
 if __name__ == "__main__":
     for n, c in CONFIGS.items():
         print(n, len(c["T"]), len(c["Q"]))
+    print(len(harnesses("quick")), len(harnesses("thorough")))
